@@ -127,22 +127,38 @@ def _cm(rc: RuleCtx):
                               construct="cm counter update")
     tp_names = [n for n in inc if isinstance(v_tp, Rat) and v_tp.equals(sym(n))]
     fn_names = [n for n in inc if isinstance(v_fn, Rat) and v_fn.equals(sym(n))]
-    if len(tp_names) != 1 or len(fn_names) != 1 or set(inc) != {tp_names[0], fn_names[0]}:
+    derived_fn = len(tp_names) == 1 and not fn_names and set(inc) == {tp_names[0]} and isinstance(v_fn, Rat) and v_fn.equals(sym("E") - sym(tp_names[0]))
+    if derived_fn:
+        # fn is not counted but computed as len(expected) - tp after the loop: TP + FN = |E| by construction
+        pass
+    elif len(tp_names) != 1 or len(fn_names) != 1 or set(inc) != {tp_names[0], fn_names[0]}:
         res.violation("S1", mod, fi.name, loop,
                       "the matrix entries [0][0] and [1][0] are not the two counters incremented in the matching loop",
                       f"counters {sorted(inc)}, matrix {m}", "[[tp, fp], [fn, tn]] with tp, fn counted in the loop", construct="cm counters")
         return
-    tp, fn = tp_names[0], fn_names[0]
+    tp = tp_names[0]
     g_tp = g_or(*inc[tp])
-    g_fn = g_or(*inc[fn])
-    lo, hi = count_true(inc[tp] + inc[fn])
-    if (lo, hi) == (1, 1):
+    if derived_fn:
+        fn, g_fn = None, g_not(g_tp)
+        lo, hi = count_true(inc[tp])
+        if hi <= 1:
+            res.ok("S1", "evaluation.cm:one-count", f"tp is incremented at most once per expected point ({g_tp}); fn = |E| - tp => TP + FN = |E|")
+        else:
+            res.violation("S1", mod, fi.name, loop, f"per expected point tp can be incremented {hi} times", f"tp when {g_tp}", "at most one tp += 1", construct="cm one count")
+        lo, hi = 1, 1
+    else:
+        fn = fn_names[0]
+        g_fn = g_or(*inc[fn])
+        lo, hi = count_true(inc[tp] + inc[fn])
+    if derived_fn:
+        pass
+    elif (lo, hi) == (1, 1):
         res.ok("S1", "evaluation.cm:one-count", f"guards {g_tp} / {g_fn} partition every iteration => TP + FN = |E|")
     else:
         res.violation("S1", mod, fi.name, loop, f"per expected point the number of tp/fn increments ranges over [{lo}, {hi}], not exactly 1",
                       f"tp when {g_tp}; fn when {g_fn}", "exactly one of tp += 1 / fn += 1", construct="cm one count")
     # tp co-occurs with used.append(idx) under idx not in used
-    apps = [e for e in out.events if e.kind == "append"]
+    apps = [e for e in out.events if e.kind in ("append", "add")]          # the claimed knees: a list or a set
     used_ok = False
     for e in apps:
         idx = e.args[0]
@@ -609,7 +625,9 @@ def _error_body(rc: RuleCtx, name: str, fi, loop, post, table):
         else:
             res.violation("S6", mod, fi.name, fi.node, "the accumulated error does not start at 0", str(acc_names), "0", construct=f"{name} init")
     else:
-        exts = [e for e in out.events if e.kind == "extend"]
+        # the two relative errors of a point are collected either flat (extend) or as one row per point (append): the root mean square
+        # over all collected values is the same
+        exts = [e for e in out.events if e.kind == "extend" or (e.kind == "append" and isinstance(e.args[0], Vec) and len(e.args[0].items) == 2)]
         want_vec = Vec([(p.items[0] - qx) / (p.items[0] + eps), (p.items[1] - qy) / (p.items[1] + eps)], "point")
         if len(exts) == 1 and exts[0].guard.kind == "true" and veq(exts[0].args[0], want_vec):
             res.ok("S6", "evaluation.rmspe:term", "errors.extend((p - q)/(p + eps)) at the Euclidean argmin")
